@@ -15,14 +15,17 @@ import (
 	"flag"
 	"fmt"
 	"os"
+	"reflect"
 	"sort"
 	"strings"
 	"time"
+	"unsafe"
 
 	sdkmath "cosmossdk.io/math"
 	wasmkeeper "github.com/CosmWasm/wasmd/x/wasm/keeper"
 	wasmvmtypes "github.com/CosmWasm/wasmvm/v2/types"
 	sdk "github.com/cosmos/cosmos-sdk/types"
+	"github.com/cosmos/cosmos-sdk/x/authz"
 	"github.com/cosmos/gogoproto/proto"
 	consensustypes "github.com/palomachain/paloma/v2/x/consensus/types"
 	skywaytypes "github.com/palomachain/paloma/v2/x/skyway/types"
@@ -53,6 +56,12 @@ type caseSpec struct {
 	// "third" = it follows one / two harmless messages created and signed by the
 	// attacker in the same tx; "first" = it precedes one (control).
 	Pos string `json:"pos,omitempty"`
+	// Subst (variant "take"): scalar leaf path -> value written into the attacker's
+	// own otherwise valid message.
+	Subst map[string]string `json:"subst,omitempty"`
+	// Nest: number of authz.MsgExec envelopes around the message (variant "authz":
+	// at least one; variant "wasm": the contract dispatches the envelope).
+	Nest int `json:"nest,omitempty"`
 }
 
 func (c caseSpec) with(path, actor string) caseSpec {
@@ -81,12 +90,18 @@ func (c caseSpec) String() string {
 	if c.Pos != "" {
 		sb.WriteString(",pos=" + c.Pos)
 	}
+	if c.Nest > 0 {
+		sb.WriteString(fmt.Sprintf(",msgexec*%d", c.Nest))
+	}
 	if c.SigVar != "" {
 		sb.WriteString(",sig=" + c.SigVar)
 	}
 	sb.WriteString("]")
 	for _, k := range ks {
 		sb.WriteString(" " + k + "=" + c.Assign[k])
+	}
+	for k, v := range c.Subst {
+		sb.WriteString(fmt.Sprintf(" %s<-%q", k, v))
 	}
 	return sb.String()
 }
@@ -159,6 +174,9 @@ type checker struct {
 	panics         []string
 	acceptedBy     map[string]float64
 	multiForgeable map[string]bool
+	authzForgeable map[string]bool
+	messenger      wasmkeeper.Messenger
+	ownViaWasm     map[string]string // positive control: contract acting for itself
 }
 
 func run(r *report.Run, replayFile string, dump bool) {
@@ -171,14 +189,14 @@ func run(r *report.Run, replayFile string, dump bool) {
 		mkPrincipal(e.V, []byte(sdk.ConsAddress(e.w.Vals[1].Cons.PubKey().Address()))),
 	}
 	c := &checker{e: e, r: r, tmpls: e.templates(), fields: map[string][]idField{}, before: map[string]projection{},
-		wasmForgeable: map[string]bool{}, acceptedBy: map[string]float64{}, multiForgeable: map[string]bool{}, stage: map[string]int{}, unattrib: map[string]int{}, exempted: map[string]int{}}
+		wasmForgeable: map[string]bool{}, acceptedBy: map[string]float64{}, multiForgeable: map[string]bool{}, authzForgeable: map[string]bool{}, ownViaWasm: map[string]string{}, stage: map[string]int{}, unattrib: map[string]int{}, exempted: map[string]int{}}
 	if dump {
 		c.dump()
 		return
 	}
-	r.Rule = "for every palomachain.paloma.* sdk.Msg type in the interface registry: a template valid in the prepared world (3 validators, active chain, B's keep-alive / chain account / relayer fee / bridge vote / batch estimate+confirm / message signature+estimate+evidence+delivery report, U's pooled transfer / batches / job / denoms / user contract, M's pending licence, governance settings incl. a compass deployment in flight); every assignment of {A,B,U,G,L} to every identity-bearing leaf (string/bytes leaf equal to an acc-bech32 / valoper-bech32 / raw / eth encoding of an actor) and to metadata.creator, signers=[attacker], really signed by the attacker (A, a plain account) and delivered through ante + router; MsgConfirmBatch additionally with {B's valid signature, attacker-key signature, B's signature over another batch}; everything repeated with a fee grant B->A; the product again with the forged message as SECOND message of a tx whose first message is a harmless denom creation by the attacker (third position and forged-first control: one case per actor with all leaves set to it; full products in the thorough tier); the product again with a second attacker V that is itself a bonded validator with registered chain accounts (w.Vals[1]: signer, creator candidate, own external-chain key and valid signatures; signature-carrying messages MsgConfirmBatch / MsgAddMessagesSignatures with {B's, attacker's own} signature); thorough tier additionally delivers the same product the way x/wasm delivers a contract's CosmosMsg::Any (wasmd SDKMessageHandler: signers == contract address, no ante). Oracle: projection of all records attributed to B,U,G,L,M before/after"
+	r.Rule = "for every palomachain.paloma.* sdk.Msg type in the interface registry: a template valid in the prepared world (3 validators, active chain, B's keep-alive / chain account / relayer fee / bridge vote / batch estimate+confirm / message signature+estimate+evidence+delivery report, U's pooled transfer / batches / job / denoms / user contract, M's pending licence, governance settings incl. a compass deployment in flight); every assignment of {A,B,U,G,L} to every identity-bearing leaf (string/bytes leaf equal to an acc-bech32 / valoper-bech32 / raw / eth encoding of an actor) and to metadata.creator, signers=[attacker], really signed by the attacker (A, a plain account) and delivered through ante + router; MsgConfirmBatch additionally with {B's valid signature, attacker-key signature, B's signature over another batch}; everything repeated with a fee grant B->A; the product again with the forged message as SECOND message of a tx whose first message is a harmless denom creation by the attacker (third position and forged-first control: one case per actor with all leaves set to it; full products in the thorough tier); the product again with a second attacker V that is itself a bonded validator with registered chain accounts (w.Vals[1]: signer, creator candidate, own external-chain key and valid signatures; signature-carrying messages MsgConfirmBatch / MsgAddMessagesSignatures with {B's, attacker's own} signature); second pass 'resource takeover': for every type the attacker's own valid message with each scalar leaf set to the victim's resource names and spelling variants; nested dispatch: the full product with the forged message inside authz.MsgExec{grantee: A} (no grant exists; one extra case per type with two envelopes), and the product (one case per actor in quick, full in thorough) dispatched as CosmosMsg::Any by a contract C through the application's own x/wasm messenger, also wrapped in authz.MsgExec{grantee: C}; positive control: C acting for itself must be accepted. Oracle: projection of all records attributed to B,U,G,L,M before/after"
 	r.Assumptions = []string{
-		"attribution: a record belongs to a principal when its key or value contains the principal's account bytes, account bech32, operator bech32, consensus address (B) or external-chain address (raw or hex, any case); governance owns the params stores and an explicit list of setting families (chain infos, compass contracts and deployments, bridge tax / limits, sale contracts, observed-nonce cursor, pigeon requirements, light-node feegranter/funders)",
+		"attribution: a record belongs to a principal when its key or value contains the principal's account bytes, account bech32, operator bech32 or consensus address (B); an external-chain address inside a record is content (destination, token contract, registered account) and does not attribute it; governance owns the params stores and an explicit list of setting families (chain infos, compass contracts and deployments, bridge tax / limits, sale contracts, observed-nonce cursor, pigeon requirements, light-node feegranter/funders)",
 		"a denom string factory/<address>/<sub> mentions its creator; outside the denom-owned families (tokenfactory records, bank denom metadata and supply, skyway denom<->erc20 mappings) such a mention does not attribute a record (e.g. A's own pooled transfer of U's token)",
 		"stored values shared by several principals are split: attestation -> one part per vote + body; queued consensus message -> per-validator signature / evidence / gas estimate, delivery report, error report, body; the body is attributed to the job caller / contract author, never to the assignee chosen by the chain",
 		"a record filed under a principal's address (the key carries it) belongs to that principal only; identities mentioned in its value are content (e.g. an external address B registers); only records keyed by ids / hashes / names are attributed through their value",
@@ -190,13 +208,15 @@ func run(r *report.Run, replayFile string, dump bool) {
 		"message types registered as sdk.Msg without a router handler cannot be delivered (baseapp refuses them) and are listed as unroutable",
 		"multi-message transactions: the harmless companion messages are tokenfactory MsgCreateDenom in the attacker's own namespace (they only create records keyed by the attacker); a violation that needs the companion (the forged message alone is refused) is keyed multimsg:*, otherwise the single-message signature is reported",
 		"validator attacker V: its own records (keyed by V, or parts of split values carrying V's operator address) are its own; violations found with V carry the suffix :by-validator",
+		"takeover pass: the attacker's own message is derived from the template (identity leaves = attacker, the victim's denoms / token contracts / job ids / transfer and contract ids replaced by the attacker's own siblings; validator-scoped messages are sent by the validator attacker V with its own signatures); every string leaf and numeric id is then set to the victim's value and its spellings (upper / lower / first letter flipped / leading / trailing blank; for addresses also 0x-less, lower, checksummed, upper, 0X); the same ownership projection decides. Operations the code leaves public are not violations by construction of the oracle: executing somebody's job enqueues a message attributed to the caller and leaves the job record unchanged; sending a victim-created token the attacker holds moves the attacker's coins only",
 		"Any-typed sub-messages (evidence proofs, bad-signature subjects) are not searched for identities",
-		"wasm extension: the contract path is reproduced with wasmd's exported SDKMessageHandler over the application's router and codec (the application's own messenger instance is unexported); the custom-binding messengers are not exercised; contract C is modelled as an account with a classic contract address",
+		"contract path: messages are dispatched through the application's own messenger (app.wasmKeeper.messenger, read with reflect/unsafe) inside a cache context as wasmd's dispatcher does for a sub-message; no wasm byte code runs, the custom-binding messengers are not exercised; contract C is modelled as a funded account with a classic contract address",
+		"authz path: a real signed tx carrying authz.MsgExec{grantee: attacker}; no authz grant and no fee grant exists in that variant",
 	}
 	for s, why := range excludedStores {
 		r.Assumptions = append(r.Assumptions, "store "+s+" not projected: "+why)
 	}
-	sort.Strings(r.Assumptions[14:])
+	sort.Strings(r.Assumptions[16:])
 
 	if replayFile != "" {
 		c.replay(replayFile)
@@ -250,8 +270,11 @@ func (c *checker) actorsOf(cs caseSpec) []*actor {
 func isAttacker(name string) bool { return name == "A" || name == "C" || name == "V" }
 
 func (c *checker) root(variant string) sdk.Context {
-	if variant == "grant" {
+	switch variant {
+	case "grant":
 		return c.e.rootGrant
+	case "take":
+		return c.e.rootTake
 	}
 	return c.e.rootPlain
 }
@@ -291,6 +314,15 @@ func (c *checker) idFields(url string) []idField {
 }
 
 func (c *checker) build(cs caseSpec) sdk.Msg {
+	if cs.Variant == "take" {
+		msg := c.takeBase(cs)
+		for p, v := range cs.Subst {
+			if !setScalar(msg, p, v) {
+				panic("takeover: cannot set " + p)
+			}
+		}
+		return msg
+	}
 	t := c.tmpls[cs.Type]
 	msg := t.Build()
 	for _, f := range c.idFields(cs.Type) {
@@ -320,7 +352,17 @@ func (c *checker) deliver(cs caseSpec) outcome {
 	msg := c.build(cs)
 	var res world.TxResult
 	if cs.Variant == "wasm" {
-		res = c.dispatchFromContract(ctx, msg)
+		// nested: the contract (the grantee and only signer) dispatches MsgExec envelopes
+		res = c.dispatchFromContract(ctx, c.wrapExec(msg, c.e.C, cs.Nest))
+	} else if cs.Variant == "authz" {
+		// no grant of any kind exists: x/authz accepts an inner message implicitly
+		// when its only signer is the grantee
+		n := cs.Nest
+		if n < 1 {
+			n = 1
+		}
+		att := c.attacker(cs)
+		res = c.e.w.DeliverTx(ctx, []*world.Actor{c.e.keys[att.Name]}, c.wrapExec(msg, att, n))
 	} else {
 		att := c.attacker(cs)
 		msgs := []sdk.Msg{msg}
@@ -352,15 +394,49 @@ func (c *checker) deliver(cs caseSpec) outcome {
 	return o
 }
 
+// wrapExec wraps msg in n authz.MsgExec envelopes with the given grantee.
+func (c *checker) wrapExec(msg sdk.Msg, grantee *actor, n int) sdk.Msg {
+	for i := 0; i < n; i++ {
+		m := authz.NewMsgExec(grantee.Acc, []sdk.Msg{msg})
+		msg = &m
+	}
+	return msg
+}
+
 // harmless is a message the attacker is fully entitled to send: a denom in its
 // own namespace, created and signed by itself.
 func (c *checker) harmless(att *actor, i int) sdk.Msg {
 	return &tftypes.MsgCreateDenom{Subdenom: fmt.Sprintf("harmless%d", i), Metadata: meta(att.Acc.String(), att.Acc.String())}
 }
 
+// appMessenger returns the application's own x/wasm messenger (the libwasm
+// router decorating wasmd's default handler chain). app.wasmKeeper and the
+// keeper's messenger field are unexported; reading them needs no hook in /repo.
+func (c *checker) appMessenger() wasmkeeper.Messenger {
+	if c.messenger != nil {
+		return c.messenger
+	}
+	k := reflect.ValueOf(c.e.w.App).Elem().FieldByName("wasmKeeper")
+	if !k.IsValid() {
+		panic("app.wasmKeeper not found")
+	}
+	f := k.FieldByName("messenger")
+	if !f.IsValid() {
+		panic("wasm keeper has no messenger field")
+	}
+	m, ok := reflect.NewAt(f.Type(), unsafe.Pointer(f.UnsafeAddr())).Elem().Interface().(wasmkeeper.Messenger)
+	if !ok || m == nil {
+		panic("wasm keeper messenger is not a Messenger")
+	}
+	c.messenger = m
+	return m
+}
+
 // dispatchFromContract delivers msg the way x/wasm delivers a CosmosMsg::Any
-// returned by contract C: wasmd's SDKMessageHandler (ValidateBasic, signers ==
-// contract address, router handler) inside a cache context. No ante handler runs.
+// returned by contract C: through the application's real messenger (libwasm
+// router -> wasmd default handler chain -> SDKMessageHandler: ValidateBasic,
+// signers == contract address, router handler) inside a cache context, as
+// wasmd's dispatcher does for a sub-message. No ante handler runs.
 func (c *checker) dispatchFromContract(ctx sdk.Context, msg sdk.Msg) (res world.TxResult) {
 	defer func() {
 		if r := recover(); r != nil {
@@ -372,9 +448,9 @@ func (c *checker) dispatchFromContract(ctx sdk.Context, msg sdk.Msg) (res world.
 	if err != nil {
 		return world.TxResult{Err: err, Stage: "build"}
 	}
-	h := wasmkeeper.NewSDKMessageHandler(app.AppCodec(), app.MsgServiceRouter(), wasmkeeper.DefaultEncoders(app.AppCodec(), nil))
 	cc, write := ctx.CacheContext()
-	_, _, _, err = h.DispatchMsg(cc, c.e.C.Acc, "", wasmvmtypes.CosmosMsg{Any: &wasmvmtypes.AnyMsg{TypeURL: sdk.MsgTypeURL(msg), Value: bz}})
+	cc = cc.WithEventManager(sdk.NewEventManager())
+	_, _, _, err = c.appMessenger().DispatchMsg(cc, c.e.C.Acc, "", wasmvmtypes.CosmosMsg{Any: &wasmvmtypes.AnyMsg{TypeURL: sdk.MsgTypeURL(msg), Value: bz}})
 	if err != nil {
 		return world.TxResult{Err: err, Stage: "wasm"}
 	}
@@ -566,7 +642,17 @@ func (c *checker) describe(cs caseSpec, o outcome) string {
 		by += "; tx = [this message, harmless denom creation by " + att.Name + "]"
 	}
 	if cs.Variant == "wasm" {
-		by = "dispatched as CosmosMsg::Any by contract C (signers=[C], no ante)"
+		by = "dispatched as CosmosMsg::Any by contract C through the application's messenger (signers=[C], no ante)"
+		if cs.Nest > 0 {
+			by += fmt.Sprintf("; wrapped in %d authz.MsgExec{grantee: C}", cs.Nest)
+		}
+	}
+	if cs.Variant == "authz" {
+		n := cs.Nest
+		if n < 1 {
+			n = 1
+		}
+		by += fmt.Sprintf("; tx = [%d x authz.MsgExec{grantee: %s}[this message]], no grant exists", n, att.Name)
 	}
 	fmt.Fprintf(&sb, "%s\n  %s; result: %s\n", cs, by, errClass(o.Res))
 	for _, v := range o.Viol {
@@ -635,6 +721,12 @@ func (c *checker) signature(cs caseSpec, o outcome) string {
 		// named principal is authenticated on that path
 		return "wasm:principal-unauthenticated"
 	}
+	if cs.Variant == "authz" {
+		// one defect class: x/authz executes the messages nested in a MsgExec whose
+		// grantee is their only signer without any grant, and the ante decorator only
+		// looks at the envelope
+		return "authz:principal-unauthenticated"
+	}
 	s := "forge:" + shortType(cs.Type) + ":" + strings.Join(fs, ",")
 	if cs.SigVar != "" && cs.SigVar != "valid" {
 		s += ":sig=" + cs.SigVar
@@ -654,8 +746,7 @@ func (c *checker) signature(cs caseSpec, o outcome) string {
 	return s
 }
 
-func (c *checker) evalCase(cs caseSpec) {
-	o := c.deliver(cs)
+func (c *checker) countOutcome(cs caseSpec, o outcome) {
 	c.stage[o.Res.Stage]++
 	if o.Res.Stage == "panic" {
 		c.panics = append(c.panics, cs.String()+": "+o.Res.Err.Error())
@@ -674,6 +765,33 @@ func (c *checker) evalCase(cs caseSpec) {
 		key = cs.Type + "|" + cs.Attacker + "|" + cs.Pos + "|" + errClass(o.Res)
 	}
 	c.r.Case(key)
+}
+
+// a contract acting for itself (creator == the contract) must keep working:
+// positive control for repairs of the contract path
+var wasmOwnControls = map[string]bool{
+	"/palomachain.paloma.tokenfactory.MsgCreateDenom": true,
+	"/palomachain.paloma.scheduler.MsgCreateJob":      true,
+	"/palomachain.paloma.scheduler.MsgExecuteJob":     true,
+}
+
+func (c *checker) evalCase(cs caseSpec) {
+	o := c.deliver(cs)
+	c.countOutcome(cs, o)
+	if cs.Variant == "wasm" && cs.Nest == 0 && wasmOwnControls[cs.Type] {
+		own := true
+		for _, a := range cs.Assign {
+			if a != "C" {
+				own = false
+			}
+		}
+		if own {
+			c.ownViaWasm[shortType(cs.Type)] = errClass(o.Res)
+			if !o.Res.OK() {
+				c.r.Violate("wasm:own-message-refused", "contract C dispatching its own message (creator = C, signers = [C]) is refused: "+o.Res.Err.Error()+"\n"+cs.String(), cs)
+			}
+		}
+	}
 	if len(o.Viol) > 0 {
 		min, mo := c.shrink(cs, o)
 		if min.Pos != "" {
@@ -691,6 +809,9 @@ func (c *checker) evalCase(cs caseSpec) {
 		}
 		if cs.Variant == "wasm" {
 			c.wasmForgeable[shortType(cs.Type)] = true
+		}
+		if cs.Variant == "authz" {
+			c.authzForgeable[shortType(cs.Type)] = true
 		}
 	}
 	// the fee grant must be honoured for the plain "act for B" case
@@ -736,25 +857,36 @@ func (c *checker) enumerate() {
 	// plans: (attacker, variant, position of the forged message in the tx, product)
 	// diag = every identity leaf set to the same actor (one case per actor) instead
 	// of the full product
+	// product: "full" = every assignment; "diag" = every identity leaf set to the same
+	// actor (one case per actor); "orig" = the template's own assignment (creator and
+	// principals = the legitimate principal), attacker signs
 	type plan struct {
 		attacker, variant, pos string
-		diag                   bool
+		product                string
+		nest                   int
 	}
 	th := r.Thorough()
+	red := "diag"
+	if th {
+		red = "full"
+	}
 	plans := []plan{
-		{"", "plain", "", false},
-		{"", "grant", "", false},
-		{"", "plain", "second", false},
-		{"", "plain", "third", !th},
-		{"", "plain", "first", !th},
-		{"V", "plain", "", false},
-		{"V", "plain", "second", !th},
+		{"", "plain", "", "full", 0},
+		{"", "grant", "", "full", 0},
+		{"", "plain", "second", "full", 0},
+		{"", "plain", "third", red, 0},
+		{"", "plain", "first", red, 0},
+		{"V", "plain", "", "full", 0},
+		{"V", "plain", "second", red, 0},
+		{"", "authz", "", "full", 1},
+		{"", "authz", "", "orig", 2},
+		{"", "wasm", "", red, 0},
+		{"", "wasm", "", "diag", 1},
 	}
 	if th {
 		plans = append(plans,
-			plan{"", "wasm", "", false},
-			plan{"", "grant", "second", false},
-			plan{"V", "plain", "third", true},
+			plan{"", "grant", "second", "full", 0},
+			plan{"V", "plain", "third", "diag", 0},
 		)
 	}
 	deadline := r.Deadline(150*time.Second, 25*time.Minute)
@@ -766,13 +898,17 @@ func (c *checker) enumerate() {
 			fieldReport[shortType(url)] = append(fieldReport[shortType(url)], f.Path+":"+f.Kind)
 		}
 		for _, pl := range plans {
+			if only := os.Getenv("C03_ONLY"); only != "" && only != pl.variant { // development aid
+				continue
+			}
 			for _, sv := range c.e.variantsOf(url, pl.attacker) {
-				proto := caseSpec{Type: url, Variant: pl.variant, SigVar: sv.Name, Attacker: pl.attacker, Pos: pl.pos}
+				proto := caseSpec{Type: url, Variant: pl.variant, SigVar: sv.Name, Attacker: pl.attacker, Pos: pl.pos, Nest: pl.nest}
 				acts := c.actorsOf(proto)
 				n := 1
-				if pl.diag {
+				switch pl.product {
+				case "diag":
 					n = len(acts)
-				} else {
+				case "full":
 					for range fs {
 						n *= len(acts)
 					}
@@ -785,12 +921,15 @@ func (c *checker) enumerate() {
 					cs := proto.with("", "")
 					x := i
 					for _, f := range fs {
-						if pl.diag {
+						switch pl.product {
+						case "diag":
 							cs.Assign[f.Path] = acts[i].Name
-							continue
+						case "orig":
+							cs.Assign[f.Path] = f.Orig
+						default:
+							cs.Assign[f.Path] = acts[x%len(acts)].Name
+							x /= len(acts)
 						}
-						cs.Assign[f.Path] = acts[x%len(acts)].Name
-						x /= len(acts)
 					}
 					c.evalCase(cs)
 					name := pl.variant
@@ -800,12 +939,16 @@ func (c *checker) enumerate() {
 					if pl.pos != "" {
 						name += ",pos=" + pl.pos
 					}
+					if pl.nest > 0 {
+						name += fmt.Sprintf(",msgexec*%d", pl.nest)
+					}
 					perPlan[name]++
 				}
 			}
 		}
 	}
 done:
+	c.takeover(routable, deadline)
 	r.Extra["identity_fields"] = fieldReport
 	r.Extra["deliveries"] = float64(c.deliveries)
 	r.Extra["cases_per_plan"] = perPlan
@@ -833,6 +976,15 @@ done:
 		sort.Strings(ts)
 		r.Extra["multimsg_message_types_forgeable_only_inside_a_multi_message_tx"] = ts
 	}
+	if len(c.authzForgeable) > 0 {
+		var ts []string
+		for t := range c.authzForgeable {
+			ts = append(ts, t)
+		}
+		sort.Strings(ts)
+		r.Extra["authz_message_types_with_forgeable_principal"] = ts
+	}
+	r.Extra["wasm_contract_acting_for_itself"] = c.ownViaWasm
 	if len(c.wasmForgeable) > 0 {
 		var ts []string
 		for t := range c.wasmForgeable {
